@@ -40,6 +40,7 @@ func checkC14(p *core.Program, r *core.Report) {
 	r.Rule(R2, "every path that stores false into the running flag (outside the fire path) closes the current token unless it is nil; no non-blocking send is used for cancellation")
 	r.Rule(R3, "the timeout dispatch in the timer goroutine is guarded by token identity, compared under handshakeTimerMux")
 	r.Rule(R5, "every path through an arming function reaches the go statement of its timer goroutine (no 'already armed' early return)")
+	r.Rule("C14.R7 timer-follows-the-state-atomically", "see below")
 	r.Rule(R6, "over the handshake automaton extracted from package ship (E1): starting from the constructor's configuration, in every reachable quiescent configuration with a running timer, no entry run ends in a state of another handshake phase with the timer still running unless the run re-armed it")
 	r.Rule(R4, "neither the select nor the timeout dispatch of the timer goroutine is inside a loop")
 
@@ -585,6 +586,125 @@ func checkC14(p *core.Program, r *core.Report) {
 		}
 	}
 	checkPhaseTimers(p, r, R6)
+	const R7 = "C14.R7 timer-follows-the-state-atomically"
+	r.Rule(R7, "in the function that stores the handshake state from its parameter every call that arms or stops the timer is made while the state mutex taken for that store is still held (else another goroutine handles the awaited reply, stops nothing because nothing is armed yet, moves on - and the timer of the finished phase is armed afterwards, with nobody left to stop it); and a hello handler that reads the partner's waiting value stops or replaces the running timer on every path that goes on")
+	{
+		fState := p.Field("ship", "ShipConnection", "smeState")
+		armOrStop := map[*ssa.Function]bool{}
+		for _, a := range arms {
+			armOrStop[a.fn] = true
+		}
+		for _, fn := range shipFns {
+			if inFire(fn) || isArm(fn) {
+				continue
+			}
+			core.EachInstr(fn, func(in ssa.Instruction) {
+				if f, _, v := core.StoredField(in); f == fTimer && isBoolConst(v, false) {
+					armOrStop[fn] = true
+				}
+			})
+		}
+		nset := 0
+		for _, fn := range shipFns {
+			fn := fn
+			var store ssa.Instruction
+			core.EachInstr(fn, func(in ssa.Instruction) {
+				if f, _, v := core.StoredField(in); f == fState && fState != nil {
+					if _, ok := core.Canon(v).(*ssa.Parameter); ok {
+						store = in
+					}
+				}
+			})
+			if store == nil {
+				continue
+			}
+			ls := core.Locksets(fn, core.LockSet{})
+			held := ls[store]
+			// the timer calls of the setter itself and of the unexported helpers it calls (entered with the
+			// locks held at their call site)
+			var scan func(f *ssa.Function, lsf map[ssa.Instruction]core.LockSet, depth int)
+			scan = func(f *ssa.Function, lsf map[ssa.Instruction]core.LockSet, depth int) {
+				core.EachInstr(f, func(in ssa.Instruction) {
+					c, ok := in.(*ssa.Call)
+					if !ok || c.Call.StaticCallee() == nil {
+						return
+					}
+					t := c.Call.StaticCallee()
+					if !armOrStop[t] {
+						if depth > 0 && t.Blocks != nil && p.PkgShort(t) == "ship" && t.Object() != nil && !t.Object().Exported() && t != fn {
+							scan(t, core.Locksets(t, lsf[in]), depth-1)
+						}
+						return
+					}
+					nset++
+					key := "timer action in " + shortFn(p.FnName(fn)) + " under the state mutex"
+					common := false
+					for id := range lsf[in] {
+						if held[id] {
+							common = true
+						}
+					}
+					if common {
+						r.OK(R7, key, p.Pos(in.Pos()), "same critical section as the state store")
+					} else {
+						r.Fail(R7, key, p.Pos(in.Pos()), "the timer is armed / stopped after the mutex of the state store was released: the new state is visible before its timer exists, a concurrent handler can finish the phase in between and the timer armed afterwards survives into the next phase")
+					}
+				})
+			}
+			scan(fn, ls, 2)
+		}
+		if nset == 0 {
+			r.Fail(R7, "timer actions of the state setter", "", "the state setter no longer arms or stops timers")
+		}
+		// waiting value handled => old timer stopped or replaced
+		if fWaiting := p.Field("model", "ConnectionHelloType", "Waiting"); fWaiting != nil {
+			isTimerOp := func(in ssa.Instruction) bool {
+				c, ok := in.(*ssa.Call)
+				if !ok || c.Call.StaticCallee() == nil {
+					return false
+				}
+				return armOrStop[c.Call.StaticCallee()]
+			}
+			mustOp := core.NewMust(p, 2, isTimerOp)
+			nw := 0
+			for _, fn := range shipFns {
+				fn := fn
+				core.EachInstr(fn, func(in ssa.Instruction) {
+					u, ok := in.(*ssa.UnOp)
+					if !ok || u.Op != token.MUL {
+						return
+					}
+					f, _ := core.LoadedField(u.X)
+					if f != fWaiting {
+						return
+					}
+					nw++
+					key := "waiting value handled in " + shortFn(p.FnName(fn)) + " replaces the running timer"
+					// a stop/arm before the read (dominating) or on every path after it
+					before := core.PathSearch(fn, nil, func(y ssa.Instruction) bool { return y == in }, func(y ssa.Instruction) bool {
+						switch y.(type) {
+						case *ssa.Call:
+							return mustOp.Instr(y)
+						}
+						return false
+					}, nil) == nil
+					after := core.PathSearch(fn, in, core.IsReturn, func(y ssa.Instruction) bool {
+						switch y.(type) {
+						case *ssa.Call:
+							return mustOp.Instr(y)
+						}
+						return false
+					}, nil) == nil
+					if before || after {
+						r.OK(R7, key, p.Pos(in.Pos()), "the previous timer is stopped or replaced on every path")
+					} else {
+						r.Fail(R7, key, p.Pos(in.Pos()), "a path handles the partner's waiting value and returns with the previous timer still running (for some values nothing is re-armed): that timer expires later although its reply arrived in time")
+					}
+				})
+			}
+			_ = nw
+		}
+	}
 	r.Floor(R5, 1)
 	r.Floor(R6, 4)
 	r.Counts["timer_goroutines"] = len(arms)
